@@ -630,7 +630,9 @@ class Gen:
                            if False else "    " + self.pick(["// x++; selfdestruct(msg.sender); token.transfer(a, b);",
                                                              "/* constructor( require(x == true, \"long\"); */",
                                                              "/// @notice a / b * c and i++ in a comment",
-                                                             "/* pragma solidity ^0.8.0; uint256 constant x = 1; */"]))
+                                                             "/* pragma solidity ^0.8.0; uint256 constant x = 1; */",
+                                                             "/* \u65e5\u672c\u8a9e\u306e\u30b3\u30e1\u30f3\u30c8\u3067\u3059\u3001\u3053\u308c\u306f\u9577\u3044 \U0001F600\U0001F600\U0001F600 */",
+                                                             "// \u00c4\u00d6\u00dc \u2014 \u0435\u0449\u0451 \u2014 \u4e2d\u6587\u6ce8\u91ca\u4e2d\u6587\u6ce8\u91ca"]))
             out += ["    " + s for s in m]
             if self.chance(0.5):
                 out.append("")
@@ -716,13 +718,45 @@ def program(seed, k):
     return Gen(seed, k).program()
 
 
+BOUNDARY_LITS = ["0", "1", "2", "10", "256", "0x0", "1e18", "2**256",
+                 "115792089237316195423570985008687907853269984665640564039457584007913129639936"]
+BOUNDARY_OPS = ["+", "-", "*", "/", "%", "**", "<<", ">>", "&", "|", "^"]
+MATRIX_PARTS = 30
+
+
+def literal_matrix(version, part):
+    """Every pair of binary operators over every pair of boundary literals next to a variable, in all four bracketings
+    (part `part` of MATRIX_PARTS): analysis must not abort on any of them (C04), whatever a detector computes from the
+    values of the literals."""
+    lines = []
+    k = 0
+    for o1 in BOUNDARY_OPS:
+        for o2 in BOUNDARY_OPS:
+            for a in BOUNDARY_LITS:
+                for b in BOUNDARY_LITS:
+                    k += 1
+                    if k % MATRIX_PARTS != part:
+                        continue
+                    lines.append("        y = %s %s %s %s x;" % (a, o1, b, o2))
+                    lines.append("        y = (%s %s %s) %s x;" % (a, o1, b, o2))
+                    lines.append("        y = x %s (%s %s %s);" % (o2, a, o1, b))
+                    lines.append("        y = x %s %s %s %s;" % (o2, a, o1, b))
+    head = ["pragma solidity %s;" % version, "contract LiteralMatrix {", "    uint256 y;", "    uint256[] arr;",
+            "    function f(uint256 x) public {"]
+    tail = ["        arr[0] = arr[0] + 0;", "        arr[2**256] = arr[2**256] / 0 * x;",
+            "        for (uint256 i = 0; i < arr.length / 0; i += 0) { y = y / 0; }",
+            "        require(x / 0 * 0 == 0 % 0, \"\");", "        require(x > 0 / 0, \"\" \"\");",
+            "    }", "}"]
+    return "\n".join(head + lines + tail) + "\n"
+
+
 def write_many(outdir, seed, count, prefix="g"):
     import os
     names = []
     for k in range(count):
         nm = "%s_%s_%04d.sol" % (prefix, seed, k)
-        with open(os.path.join(outdir, nm), "w") as f:
-            f.write(program(seed, k))
+        with open(os.path.join(outdir, nm), "wb") as f:
+            f.write(program(seed, k).encode("utf-8"))
         names.append(nm)
     return names
 
